@@ -82,3 +82,57 @@ Example c05_failover_example :
   snd (run 20 true {| can_send := fun _ h => negb (N.eqb h 1); answer := fun j h => if N.eqb h 3 then OResult else OLost |} [1; 2; 3]%N)
   = Some (RpResult 3%N 1).
 Proof. vm_compute. reflexivity. Qed.
+
+(** ---- added: the same property over the integrated request-path model Model/Core.v
+    (many requests, many connections, stream-id tables, retries, closes, failed writes) ---- *)
+From Coq Require Import List ZArith NArith Bool Permutation.
+From CqlProxy Require Import Lib.Val Gen.Tables Model.Retry Model.Core Proofs.CoreProofs Proofs.CoreProofs2.
+Local Open Scope N_scope.
+
+(** ** C05 -- retries follow the query plan, are bounded, and "no hosts" means no hosts *)
+
+(** T7.  For a request started with plan [p]: every host it was written to is in [p]; the hosts it
+    was written to, in order, are a subsequence of [p] (by position: no plan entry is used twice, none
+    out of order) except that at most one of them may appear twice in a row (the single RetrySame,
+    which the policy allows only at retry count 0 -- derived from [policy_eq_doc]); so at most
+    [length p + 1] writes. *)
+Theorem c05_core_writes_bounded_and_in_plan_order : forall es r cl cs idem p,
+  first_start es r = Some (cl, cs, idem, p) ->
+  let hs := whosts (run_events es) r in
+  (forall h, In h hs -> In h p) /\
+  (exists hs', subseq hs' p /\ (hs = hs' \/ exists a x b, hs' = a ++ x :: b /\ hs = a ++ x :: x :: b)) /\
+  (length (backend_writes (run_events es) r) <= length p + 1)%nat.
+Proof. exact core_writes_bounded_and_in_plan_order. Qed.
+Print Assumptions c05_core_writes_bounded_and_in_plan_order.
+
+(** T8 (repaired Send).  In any state in which "Proxy exhausted query plan ..." has been written for
+    [r] -- the state right after the event that wrote it included: the reply is the last thing that
+    event does -- [r] is not registered on any connection (no attempt is in flight, no notification
+    is outstanding) and its plan is exhausted. *)
+Theorem c05_core_no_hosts_only_when_not_in_flight : forall es c s r,
+  In (ToClient c s r CNoHosts) (w_out (run_events es)) ->
+  (forall k s', ~ In (s', r) (live (run_events es) k)) /\
+  (forall k cn, lookupN k (w_conns (run_events es)) = Some cn -> ~ In r (b_tonotify cn)) /\
+  exists q, lookupN r (w_reqs (run_events es)) = Some q /\ q_plan q = [] /\ q_done q = true.
+Proof. exact core_no_hosts_only_when_not_in_flight. Qed.
+Print Assumptions c05_core_no_hosts_only_when_not_in_flight.
+
+(** The code before fix 7dfaea9 does answer "no hosts" while an attempt is in flight: the request's
+    first Send registers it on connection 1 and fails to write; it is written to connection 2, gets
+    Unavailable, is written to connection 3; connection 1 closes and notifies it; the plan is
+    exhausted, so it is answered "no hosts" while live on connection 3, whose RESULT is then dropped. *)
+Theorem c05_core_orig_spurious_no_hosts :
+  exists es r k c s, In (ToClient c s r CNoHosts) (w_out (run_events_orig es)) /\
+                     (exists s', In (s', r) (live (run_events_orig es) k)) /\
+                     exists s' o, w_out (run_events_orig (es ++ [EFrame k s' FResult o])) = w_out (run_events_orig es).
+Proof. exact core_orig_spurious_no_hosts. Qed.
+Print Assumptions c05_core_orig_spurious_no_hosts.
+
+Example c05_core_example :
+  (whosts (run_events ex_es) 7, whosts (run_events ex_es) 8) = ([10; 30; 30], [10; 20]) /\ subseq [10; 30] [10; 20; 30].
+Proof. exact ex_plan_order. Qed.
+Example c05_core_example_no_hosts :
+  let es := [EConnect 1 10 2; EStart 9 2 7%Z true [40; 10] [None; Some (1, false)]] in
+  (client_replies (run_events es) 9, live (run_events es) 1, option_map q_plan (lookupN 9 (w_reqs (run_events es)))) =
+  ([ToClient 2 7%Z 9 CNoHosts], [], Some []).
+Proof. exact ex_no_hosts. Qed.
